@@ -18,7 +18,8 @@ RULE = ("seeded random manifests with 1-8 batches of sizes from {0,1,2,3,7,100} 
         "non-trivial = manifest has an empty batch or needs a phantom batch; distinct = hash of (vendor, sizes, bound, sample)")
 REQUIRED = ["prep_checked:dominion", "prep_checked:hart", "prep_rejections_checked", "lookup_checked:dominion",
             "lookup_checked:hart", "lookups_with_empty_batches", "lookups_with_phantom_batch", "cvrs_checked:dominion",
-            "cvrs_checked:hart", "sample_numbers_mapped", "phantom_cards_sampled"]
+            "cvrs_checked:hart", "sample_numbers_mapped", "phantom_cards_sampled",
+            "manifest_row_labels_not_0_to_n", "manifest_row_labels_not_0_to_n_and_no_phantom_batch"]
 ASSUMPTIONS = ["unique (tabulator, batch) labels per manifest", "Dominion lookup is 1-based, Hart lookup 0-based, as each "
                "vendor module documents and its test pins", "phantom CVR ids use the documented prefix 'phantom-1-'"]
 N_CASES = {"quick": 8000, "thorough": 64000}
@@ -56,6 +57,20 @@ def gen_manifest(rng):
 def frames(case, vendor):
     import pandas as pd
     sizes = case["sizes"]
+    df = _frames(case, vendor, pd, sizes)
+    # the row labels of a manifest are whatever the earlier processing left: 0..n-1 from a fresh read, the original labels
+    # after rows were dropped (offset) or the table was sorted by another column (permuted)
+    mode = case.get("index_mode", "default")
+    if mode == "offset":
+        df.index = range(3, 3 + len(sizes))
+    elif mode == "permuted":
+        lab = list(range(len(sizes)))
+        random.Random(len(sizes) * 31 + sum(sizes)).shuffle(lab)
+        df.index = lab
+    return df
+
+
+def _frames(case, vendor, pd, sizes):
     if vendor == "dominion":
         return pd.DataFrame({"Tray #": [i + 1 for i in range(len(sizes))],
                              "Tabulator Number": [10 + i // 3 for i in range(len(sizes))],
@@ -76,6 +91,7 @@ def run_shard(spec, rec):
         case["sample_mode"] = rng.choice(("full", "full", "boundaries", "phantoms", "random"))
         case["sseed"] = rng.randrange(10 ** 9)
         case["n_cvrs"] = rng.randint(0, sum(case["sizes"]))
+        case["index_mode"] = rng.choice(("default", "default", "offset", "permuted"))
         run_case(case, rec)
 
 
@@ -100,6 +116,8 @@ def run_case(case, rec):
     total = sum(sizes)
     rng = random.Random(case["sseed"])
     rec.case(case, nontrivial=(0 in sizes or bound > total))
+    if case.get("index_mode", "default") != "default":
+        rec.count("manifest_row_labels_not_0_to_n" + ("_and_no_phantom_batch" if bound == total else ""))
     tabcol, batchcol, sizecol = (("Tabulator Number", "Batch Number", "Total Ballots") if vendor == "dominion"
                                  else ("Tabulator", "Batch Name", "Number of Ballots"))
 
